@@ -80,7 +80,7 @@ func patchMatrix(patchFile, repo, vdir string) int {
 				if o.Status == StDischarged {
 					continue
 				}
-				if o.Status == StViolated && known[id+"|"+o.Rule+"|"+o.Key] {
+				if o.Status == StViolated && (known[id+"|"+o.Rule+"|"+o.Key] || o.AltKey != "" && known[id+"|"+o.Rule+"|"+o.AltKey]) {
 					continue
 				}
 				r := strings.TrimPrefix(o.Rule, id+"/")
